@@ -108,7 +108,7 @@ func cmdManifest() {
 func init() {
 	for id, why := range map[string]string{
 		
-		"C04": "pending: rules not built yet", "C05": "pending: rules not built yet", "C06": "pending: rules not built yet",
+		"C04": "pending: rules not built yet", "C06": "pending: rules not built yet",
 		"C07": "pending: rules not built yet", "C09": "pending: rules not built yet",
 		"C12": "pending: rules not built yet",
 		"C15": "pending: rules not built yet",
